@@ -57,6 +57,27 @@ Contract(t) ==
         t3 == [i \in 1..NL |-> t2[i] + (IF i = 1 THEN (2 ^ W) - C ELSE (2 ^ W) - 1)]
     IN  Val(CarryFinal(t3))
 
+\* Mul (curve25519_mul): schoolbook columns with the wrap-around columns folded in times C, one carry chain, the top
+\* carry folded into limb 0 times C, and one more carry from limb 0 into limb 1 (which may therefore exceed the mask)
+RECURSIVE ColSumF(_, _, _, _)
+ColSumF(x, y, i, j) ==     \* SUM over j of x[j] * y[k] with j + k = i (0-based) or = i + NL (then times C)
+    IF j > NL THEN 0
+    ELSE LET k0 == i - (j - 1)    \* 0-based index of y for the direct column
+             direct == IF k0 >= 0 /\ k0 < NL THEN x[j] * y[k0 + 1] ELSE 0
+             k1 == i + NL - (j - 1)
+             wrapped == IF k1 >= 0 /\ k1 < NL THEN C * x[j] * y[k1 + 1] ELSE 0
+         IN  direct + wrapped + ColSumF(x, y, i, j + 1)
+MulCols(x, y) == [i \in 1..NL |-> ColSumF(x, y, i - 1, 1)]
+RECURSIVE MulChain(_, _, _, _)
+MulChain(t, i, c, acc) ==
+    IF i > NL THEN <<acc, c>>
+    ELSE LET v == t[i] + c IN MulChain(t, i + 1, v \div (2 ^ W), Append(acc, v % (2 ^ W)))
+Mul(x, y) ==
+    LET ch == MulChain(MulCols(x, y), 1, 0, << >>)
+        r  == ch[1]
+        r0 == r[1] + ch[2] * C
+    IN  [i \in 1..NL |-> IF i = 1 THEN r0 % (2 ^ W) ELSE IF i = 2 THEN r[2] + (r0 \div (2 ^ W)) ELSE r[i]]
+
 \* ---- exhaustive exploration ----
 VARIABLES a, b, pc
 RSet == [1..NL -> 0..Mask] \cup {[i \in 1..NL |-> IF i <= 2 THEN Mask + Slack ELSE Mask]}
@@ -86,6 +107,19 @@ ReduceExact == pc = "ab" =>
     /\ IsReduced(AddReduce(a, b)) /\ Val(AddReduce(a, b)) % P = (Val(a) + Val(b)) % P
     /\ IsReduced(SubReduce(a, b)) /\ Val(SubReduce(a, b)) % P = (Val(a) - Val(b)) % P
     /\ IsReduced(Neg(a)) /\ Val(Neg(a)) % P = (-Val(a)) % P
+\* Mul / Square on every operand class the group law feeds them: exact residue, output reduced (limb 1 by at most the
+\* last carry), and the result serialises canonically
+MulOps == <<a, b, A1, S1, Add(A1, a), SubAB(A1, b), SubAB(a, A1), SubAB(b, S1)>>
+MulPairs == {<<i, j>> : i \in 1..8, j \in {1, 3, 4, 6, 8}} \cup {<<i, i>> : i \in 1..8}
+\* (the product is passed as an operator argument so that TLC evaluates it once)
+MulOk(x, y, m) ==
+    /\ Val(m) % P = (Val(x) * Val(y)) % P                                  \* exact residue
+    /\ \A k \in 1..NL : m[k] >= 0 /\ (k # 2 => m[k] <= Mask)               \* limbs 0, 2.. masked; limb 1 takes the last carry
+    /\ Contract(m) = (Val(x) * Val(y)) % P                                  \* and the result serialises canonically
+\* checked for every a and for the b whose limbs are at the extremes (0, 1, mask-1, mask) or the slack vector
+BExtreme == (\A i \in 1..NL : b[i] \in {0, 1, Mask - 1, Mask}) \/ b[1] > Mask
+MulExact == (pc = "ab" /\ BExtreme) => \A pr \in MulPairs : MulOk(MulOps[pr[1]], MulOps[pr[2]], Mul(MulOps[pr[1]], MulOps[pr[2]]))
+
 ContractCanonical == pc = "ab" =>
     /\ Contract(a) = Val(a) % P
     /\ Contract(A1) = Val(A1) % P
